@@ -520,6 +520,9 @@ def case_flaky(ctx, jax, cs, mods, rng, case_no):
         armed['on'] = False
         raise _Transient('transient failure while loading a client')
       armed['after'] -= 1
+    # written the "assign into the dict you are given" way and NOT idempotent: applied once per materialisation of a client, to a
+    # copy of the stored examples, it yields idx*3+1 -- every time, however often the client was drawn before
+    ex['idx'] = ex['idx'] * 3 + 1
     return ex
 
   fd = im.InMemoryFederatedData(mapping).preprocess_client(flaky)
@@ -543,6 +546,11 @@ def case_flaky(ctx, jax, cs, mods, rng, case_no):
       retry = ctx.call('sample', s0.sample, witness={**wit, 'call': 'retry after the failed round'})
       fresh = ctx.call('UniformGetClientSampler', lambda: cs.UniformGetClientSampler(fd, cohort, seed, fail_round).sample(), witness=wit)
       if retry.ok and fresh.ok:
+        for c_, d_, _k in list(retry.value) + list(fresh.value):
+          got_idx = np.asarray(d_.all_examples()['idx'])
+          ctx.check(np.array_equal(got_idx, mapping[bytes(c_)]['idx'] * 3 + 1), 'round/dataset-mismatch',
+                    'a sampled client\'s examples are not the stored examples passed ONCE through the client preprocessor '
+                    '(the client had been drawn before)', {**wit, 'client': c_, 'got': got_idx, 'stored': mapping[bytes(c_)]['idx']})
         same = ids_of(retry.value) == ids_of(fresh.value) and [key_bytes(jax, t[2]) for t in retry.value] == [key_bytes(jax, t[2]) for t in fresh.value]
         ctx.check(same, 'pure/retry-after-failed-sample-is-another-round',
                   f'sample() raised while loading round {fail_round}; the retry returned {[c.hex() for c in ids_of(retry.value)]}, a fresh '
